@@ -95,6 +95,9 @@ func backendProp(b backendSpec, meaning string) propFunc {
 			r.Clauses = append(r.Clauses, "names already written (E30): a paren predicate concludes that a child is written as a name only from the writer's own table of emitted names, never from the IR's NamedExpressions table")
 			c.runParenBakedOnly(r, "parens.bakedonly", inPkgs("msl"))
 			r.floor("parens.bakedonly", 2)
+			r.Clauses = append(r.Clauses, boundsStrictClause)
+			c.runBoundsStrict(r, "bounds.strict", inPkgs("msl"))
+			r.floor("bounds.strict", 4)
 			r.Clauses = append(r.Clauses, guardAgreeClause)
 			c.runGuardAgree(r, "guard.agree", inPkgs("msl"))
 			r.floor("guard.agree", 3)
